@@ -176,3 +176,17 @@ pub use transaction::Transaction;
 pub use transaction_mut::TransactionMut;
 pub use utilities::serialize::Serialize as AgdbSerialize;
 pub use utilities::stable_hash::StableHash;
+
+// Verification hook (inactive unless built with `--cfg agdb_verif` under Kani).
+#[cfg(all(agdb_verif, kani))]
+#[allow(unused, dead_code, clippy::all)]
+pub(crate) mod verif_support {
+    include!(concat!(env!("AGDB_VERIF_HARNESS"), "/support.rs"));
+}
+
+// Verification hook: in-memory model of the two files used by `FileStorage`.
+#[cfg(all(agdb_verif, kani))]
+#[allow(unused, dead_code, clippy::all)]
+pub(crate) mod verif_fs {
+    include!(concat!(env!("AGDB_VERIF_HARNESS"), "/verif_fs.rs"));
+}
